@@ -26,6 +26,12 @@ def gen_cases(tier, seed):
             h = cl.H(cfgv)
             h.spr_enter(False).call(callid, args, cb, []).spr_exit()
             yield h.case(5000, c.tag + ' / suppressed')
+        # the same call three times on one client, the application handing over the same argument objects: every frame is the first one
+        if isospec.expected(cfgv, callid, args, cb)[0] == 'send' and callid in (1, 17, 18, 19, 20, 26) and (tier != 'quick' or len(c.line()) % 2 == 0 or (callid == 26 and args[4] == 2)):
+            h = cl.H(cfgv)
+            a3 = list(args[:5]) + [1] if callid == 1 else args
+            h.call(callid, a3, cb, []).call(callid, a3, cb, []).call(callid, a3, cb, [])
+            yield h.case(5000, c.tag + ' / repeated')
 
 
 def worker_init():
@@ -48,6 +54,15 @@ def oracle(c, r):
         want = val[:1] + bytes([val[1] | 0x80]) + val[2:] if svc.use_subfunction() else val
         if sent[:1] != [want]:
             return ('wrong-encoding-suppressed/%s' % c.tag.split(' / ')[0], 'inside a suppress block sent %r, expected %s' % ([s.hex() for s in sent], want.hex()))
+        return None
+    if c.tag.endswith(' / repeated'):
+        cfgv, ops = cl.case_ops(c)
+        _, callid, args, cb, reps = ops[0]
+        kind, val = isospec.expected(cfgv, callid, args[:5] if callid == 1 else args, cb)
+        for i, d in enumerate(cl.parse_calls(r, 3)[0]):
+            sent = [e[1] for e in d['events'] if e[0] == 'S']
+            if sent[:1] != [val]:
+                return ('wrong-encoding-repeated/%s' % c.tag.split(' / ')[0], 'call %d of 3 identical calls sent %r, the ISO encoding is %s' % (i + 1, [s.hex() for s in sent], val.hex()))
         return None
     return reqcommon.judge(c, r, want_kinds=('send',))
 
